@@ -1,6 +1,20 @@
 import GqlVerif.Props.C09
+import GqlVerif.Proofs.C09Options
 open GqlVerif.C09
 #print axioms field_wire_indep
 #print axioms enum_wire_indep
 #print axioms variable_wire_indep
 #print axioms oneof_wire_indep
+-- option-neutrality of codegen and serde (Proofs/C09Options.lean)
+#print axioms serde_ignores_derives
+#print axioms codegen_neutral_options
+#print axioms codegen_neutral_same_error
+#print axioms generatedModule_neutral
+#print axioms wire_invariant_derives_serde_visibility
+#print axioms scalars_module_only_changes_alias_target
+#print axioms scalars_module_wire_invariant
+#print axioms extern_enums_only_drops_enum_items
+#print axioms enum_wire_strings_invariant
+#print axioms renderField_wire_invariant
+#print axioms input_wire_strings_invariant
+#print axioms variables_wire_strings_invariant
